@@ -29,6 +29,7 @@ void dsched_on_deadlock(dsched_deadlock_cb) __attribute__((weak));
 void dsched_on_livelock(dsched_livelock_cb) __attribute__((weak));
 const char* dsched_trace_tail(void) __attribute__((weak));
 int dsched_active(void) __attribute__((weak));
+int dsched_check_heap(char*, unsigned long) __attribute__((weak));
 }
 
 namespace vf {
@@ -198,7 +199,10 @@ Case* current() {
   return g_case;
 }
 
+bool g_sanOnly = false; // --san-only: the sanitizer is the oracle; semantic verdicts are recorded as inconclusive
 void Case::fail(const std::string& sig0, const std::string& msg0) {
+  if (g_sanOnly)
+    inconclusive("semantic-verdict-not-used-here:" + sig0 + " " + msg0);
   // a case may declare a signature class ("sigclass" parameter): every failure of such a case is
   // reported under that class (the concrete signature moves into the message). Used for input
   // regions that are listed as one known finding.
@@ -238,11 +242,7 @@ static void runOneInChild(const Prop& prop, Case& c) {
     g_slot[8 + n] = 0;
     memcpy(g_slot, &c.index, 8);
   }
-  if (prop.flags & kE1) {
-    if (!dsched_begin) {
-      fprintf(stderr, "E1 prop without dsched linked\n");
-      _exit(99);
-    }
+  if ((prop.flags & kE1) && dsched_begin) {
     dsched_cfg cfg;
     memset(&cfg, 0, sizeof cfg);
     cfg.seed = c.p.u("ss", 1);
@@ -260,6 +260,9 @@ static void runOneInChild(const Prop& prop, Case& c) {
     dsched_begin(&cfg);
     prop.run(c);
     dsched_end();
+    char hb[256];
+    if (dsched_check_heap && dsched_check_heap(hb, sizeof hb))
+      c.fail("write-after-free", hb);
   } else {
     prop.run(c);
   }
@@ -317,6 +320,8 @@ int runMain(int argc, char** argv, const Prop* props, int nprops) {
       g_caseAlarmS = strtol(nxt().c_str(), nullptr, 10);
     else if (a == "--replay-seeds")
       replaySeeds = strtol(nxt().c_str(), nullptr, 10);
+    else if (a == "--san-only")
+      g_sanOnly = true;
     else if (a == "--keep-going")
       keepGoing = true;
     else if (a == "--stop-on-known")
@@ -360,7 +365,8 @@ int runMain(int argc, char** argv, const Prop* props, int nprops) {
     cases = opts.thorough() ? prop->thoroughCases : prop->quickCases;
   if (replay)
     cases = replaySeeds > 0 ? replaySeeds : 1;
-  g_isE1 = (prop->flags & kE1) != 0;
+  // a harness written for the schedule explorer, built for a native variant (dsched_native.cpp): real threads
+  g_isE1 = (prop->flags & kE1) != 0 && dsched_begin;
   if (!timeoutS)
     timeoutS = g_isE1 ? 120 : 900;
   if (!g_isE1 && !g_caseAlarmS)
@@ -543,6 +549,9 @@ int runMain(int argc, char** argv, const Prop* props, int nprops) {
       if (killedByWatchdog) {
         ++inconclusiveN;
         incReasons["watchdog"]++;
+      } else if (g_sanOnly && WIFSIGNALED(status) && WTERMSIG(status) == SIGALRM) {
+        ++inconclusiveN;
+        incReasons["case-alarm (harness relies on virtual time)"]++;
       } else {
         ++evaluations;
         ++crashes;
